@@ -50,5 +50,5 @@ func checkInitStubLinkage(c *Ctx, bp *packages.Package) {
 
 func init() {
 	addMutant(Mutant{Prop: "C12", Name: "init-stub-weak-odr", File: "internal/build/main_module.go",
-		Old: "SetLinkage(llvm.WeakAnyLinkage)\n\tb := fn.MakeBody(1)", New: "SetLinkage(llvm.WeakODRLinkage)\n\tb := fn.MakeBody(1)", Expect: "R12.3"})
+		Old: "pkg.Module().NamedFunction(name).SetLinkage(llvm.WeakAnyLinkage)", New: "pkg.Module().NamedFunction(name).SetLinkage(llvm.WeakODRLinkage)", Expect: "R12.3"})
 }
